@@ -455,6 +455,14 @@ pub fn judge(cap: usize, term: &[u8], ops: &[OpTrace], seam: SeamInfo) -> Verdic
                 }
                 let ok: BTreeSet<usize> = states.iter().map(|s| s.0).filter(|h| *h == acked.len()).collect();
                 if ok.is_empty() {
+                    if had_failure {
+                        find!(
+                            Rule::Fault,
+                            oi,
+                            "after a failed write, flush returned Ok without writing the {} metrics accepted earlier",
+                            acked.len() - states.iter().map(|s| s.0).max().unwrap_or(0)
+                        );
+                    }
                     find!(
                         Rule::Conservation,
                         oi,
